@@ -42,7 +42,7 @@ var subC13A = harness.NewSub("c13-accepted-agrees-with-independent-expansion", f
 		}
 		want, rerr := m.DecodeTWCC(c.B)
 		if rerr != nil {
-			return fmt.Errorf("%s path accepted a TWCC packet that the independent expansion rejects (%v): chunks or deltas lie outside the declared length\ninput: %s", path, rerr, hexs(c.B))
+			return fmt.Errorf("%s path accepted a TWCC packet that the independent expansion rejects (%v): the declared length, the chunks or the deltas do not fit inside the bytes given\ninput: %s", path, rerr, hexs(c.B))
 		}
 		gm, cerr := conv.FromPion(got)
 		if cerr != nil {
@@ -169,7 +169,13 @@ func genTWCCBytes(t *rapid.T) (string, []byte) {
 			b[off], b[off+1] = byte(v>>8), byte(v)
 		}
 	}
-	switch rapid.IntRange(0, 7).Draw(t, "twccbytes.kind") {
+	switch rapid.IntRange(0, 8).Draw(t, "twccbytes.kind") {
+	case 8:
+		// a length field far larger than the buffer (16-bit arithmetic on it must not wrap)
+		b := enc(gen.TWCC(t))
+		l := int(b[2])<<8 | int(b[3])
+		put16(b, 2, uint16(rapid.SampledFrom([]int{16383, 16384, 16384 + l, 16385 + l, 32768 + l, 49152 + l, 65535}).Draw(t, "hostile.length")))
+		return "length-field-wraps-16-bit", b
 	case 0:
 		s := gen.Statuses(t, 300)
 		return "valid", enc(gen.BuildTWCC(t, s, gen.Chunking(t, s.Statuses, true)))
